@@ -7,7 +7,7 @@ use rarena_allocator::verif::Kind;
 use std::collections::HashMap;
 use std::sync::atomic::Ordering;
 
-pub const NT: usize = 4;
+pub const NT: usize = 6;
 type Vc = [u32; NT];
 
 fn join(a: &mut Vc, b: &Vc) {
